@@ -1,134 +1,313 @@
-(* C05/Proofs.v - the engine with the code-level heap observes exactly what the engine with the
-   specification's store observes, for every history. *)
+(* C05/Proofs.v - the engine with the code-level heap (and the VM states) observes exactly what the
+   engine with the specification's store observes, for every history. *)
 From Coq Require Import NArith List Bool Lia.
 From Morfuse Require Import Base.Arr Base.ListX C05.Model C05.Spec C05.ProofsCells C05.ProofsLib C05.ProofsHeap.
 Import ListNotations.
 Local Open Scope N_scope.
 
-Definition m_step := step_op heap vm_end vm_kill vm_kill_exec spawn spawned call_begin call_finish thread_alive
-                             rec_copy rec_reserve rec_move rec_destroy rec_assign rec_massign heap_reset heap_obs.
-Definition s_step := step_op store s_end s_kill s_kill s_spawn s_spawned s_begin s_finish s_alive
+Definition m_spawned (p c : N) : mheap -> mheap := on_heap (spawned p c).
+Definition m_finish (b : bool) (t : N) (a : list dval) : mheap -> mheap := on_heap (call_finish b t a).
+Definition m_alive (t : N) (m : mheap) : bool := thread_alive t (fst m).
+Definition m_reset (m : mheap) : mheap := (heap_reset (fst m), []).
+Definition m_obs (m : mheap) := heap_obs (fst m).
+
+Notation m_run_simple := (run_simple mheap m_end m_delete m_suspend).
+Notation s_run_simple := (run_simple store s_end s_kill s_noop).
+Notation m_run_st := (run_st mheap m_end m_delete m_suspend m_tail m_spawn m_spawned).
+Notation s_run_st := (run_st store s_end s_kill s_noop s_noop s_spawn s_spawned).
+Notation m_run_thr := (run_thr mheap m_end m_delete m_exec m_suspend m_tail m_spawn m_spawned).
+Notation s_run_thr := (run_thr store s_end s_kill s_noop s_noop s_noop s_spawn s_spawned).
+Notation m_resume := (resume mheap m_end m_delete m_exec m_suspend m_tail m_spawn m_spawned).
+Notation s_resume := (resume store s_end s_kill s_noop s_noop s_noop s_spawn s_spawned).
+
+Definition m_step := step_op mheap m_end m_delete m_exec m_suspend m_tail m_spawn m_spawned m_begin m_finish m_alive
+                             (fun r => on_heap (rec_copy r)) (fun r => on_heap (rec_reserve r)) (fun r => on_heap (rec_move r))
+                             (fun r => on_heap (rec_destroy r)) (fun a b => on_heap (rec_assign a b))
+                             (fun a b => on_heap (rec_massign a b)) m_reset m_obs.
+Definition s_step := step_op store s_end s_kill s_noop s_noop s_noop s_spawn s_spawned s_begin s_finish s_alive
                              s_copy s_same s_same s_destroy s_assign s_massign s_reset s_obs.
-Definition m_from := run_from heap vm_end vm_kill vm_kill_exec spawn spawned call_begin call_finish thread_alive
-                              rec_copy rec_reserve rec_move rec_destroy rec_assign rec_massign heap_reset heap_obs.
-Definition s_from := run_from store s_end s_kill s_kill s_spawn s_spawned s_begin s_finish s_alive
+Definition m_from := run_from mheap m_end m_delete m_exec m_suspend m_tail m_spawn m_spawned m_begin m_finish m_alive
+                             (fun r => on_heap (rec_copy r)) (fun r => on_heap (rec_reserve r)) (fun r => on_heap (rec_move r))
+                             (fun r => on_heap (rec_destroy r)) (fun a b => on_heap (rec_assign a b))
+                             (fun a b => on_heap (rec_massign a b)) m_reset m_obs.
+Definition s_from := run_from store s_end s_kill s_noop s_noop s_noop s_spawn s_spawned s_begin s_finish s_alive
                               s_copy s_same s_same s_destroy s_assign s_massign s_reset s_obs.
 
-Definition m_run_st := run_st heap vm_end vm_kill_exec spawn spawned.
-Definition s_run_st := run_st store s_end s_kill s_spawn s_spawned.
-Definition m_resume := resume heap vm_end vm_kill vm_kill_exec spawn spawned.
-Definition s_resume := resume store s_end s_kill s_kill s_spawn s_spawned.
+(* the relation on the model's full state: the heap is related to the store, and the VM states are
+   those of the live VMs *)
+Definition RM (m : mheap) (s : store) : Prop := R (fst m) s /\ map fst (snd m) = map fst (vms (fst m)).
+
+Lemma keys_lookup_none {A B} (l : list (N * A)) (l' : list (N * B)) t :
+  map fst l = map fst l' -> lookup t l = None -> lookup t l' = None.
+Proof.
+  revert l'. induction l as [|[k a] l IH]; intros [|[k' b] l'] E; cbn in *; try discriminate; auto.
+  injection E as -> E. destruct (k' =? t); [discriminate|]. now apply IH.
+Qed.
+
+Lemma keys_del {A B} (l : list (N * A)) (l' : list (N * B)) t :
+  map fst l = map fst l' -> map fst (del t l) = map fst (del t l').
+Proof. intro E. now rewrite !map_fst_del, E. Qed.
+
+Lemma vms_after_end t e h : map fst (vms (vm_end t e h)) = map fst (del t (vms h)).
+Proof.
+  unfold vm_end. destruct (lookup t (vms h)) eqn:E; [reflexivity|].
+  rewrite del_notin; [reflexivity|]. now apply lookup_none_notin.
+Qed.
+
+Lemma vms_after_kill t h : map fst (vms (vm_kill t h)) = map fst (del t (vms h)).
+Proof.
+  unfold vm_kill. destruct (lookup t (vms h)) eqn:E; [reflexivity|].
+  rewrite del_notin; [reflexivity|]. now apply lookup_none_notin.
+Qed.
+
+Lemma vms_after_kill_exec t h : map fst (vms (vm_kill_exec t h)) = map fst (del t (vms h)).
+Proof.
+  unfold vm_kill_exec, vm_mark, vm_reap. destruct (lookup t (vms h)) eqn:E; [reflexivity|].
+  rewrite del_notin; [reflexivity|]. now apply lookup_none_notin.
+Qed.
+
+Lemma RM_end t e m s : RM m s -> RM (m_end t e m) (s_end t e s).
+Proof.
+  intros [HR Hk]. split; cbn [fst snd m_end]; [now apply vm_end_R|].
+  rewrite vms_after_end. now apply keys_del.
+Qed.
+
+Lemma RM_delete t m s : RM m s -> RM (m_delete t m) (s_kill t s).
+Proof.
+  intros [HR Hk]. unfold m_delete. destruct (lookup t (snd m)) as [[| |]|] eqn:E.
+  - split; cbn [fst snd]; [now apply vm_kill_exec_R|]. rewrite vms_after_kill_exec. now apply keys_del.
+  - split; cbn [fst snd]; [now apply vm_kill_exec_R|]. rewrite vms_after_kill_exec. now apply keys_del.
+  - split; cbn [fst snd]; [now apply vm_kill_R|]. rewrite vms_after_kill. now apply keys_del.
+  - pose proof (keys_lookup_none _ _ t Hk E) as E'.
+    destruct (vm_kill_R t (fst m) s HR) as [H1 _]. unfold vm_kill in H1. rewrite E' in H1. now split.
+Qed.
+
+Lemma RM_exec t m s : RM m s -> RM (m_exec t m) (s_noop t s).
+Proof.
+  intros [HR Hk]. unfold m_exec, s_noop. destruct (lookup t (snd m)); [|now split].
+  split; cbn [fst snd]; [exact HR|]. now rewrite map_fst_upd.
+Qed.
+
+Lemma RM_suspend t m s : RM m s -> RM (m_suspend t m) (s_noop t s).
+Proof.
+  intros [HR Hk]. unfold m_suspend, s_noop. destruct (lookup t (snd m)) as [[| |]|]; try (now split).
+  split; cbn [fst snd]; [exact HR|]. now rewrite map_fst_upd.
+Qed.
+
+Lemma RM_tail t m s : RM m s -> RM (m_tail t m) (s_noop t s).
+Proof.
+  intros [HR Hk]. unfold m_tail, s_noop. destruct (lookup t (snd m)) as [[| |]|]; try (now split).
+  split; cbn [fst snd]; [exact HR|]. now rewrite map_fst_upd.
+Qed.
+
+Lemma RM_spawn p m s : RM m s ->
+  RM (fst (m_spawn p m)) (fst (s_spawn p s)) /\ snd (m_spawn p m) = snd (s_spawn p s).
+Proof.
+  intros [HR Hk]. unfold m_spawn. destruct (spawn_R p (fst m) s HR) as [H1 H2].
+  assert (Hv : map fst (vms (fst (spawn p (fst m)))) = map fst (vms (fst m)) ++ [snd (spawn p (fst m))]).
+  { unfold spawn, thread_begin. destruct (alloc _ _) as [c1 rc]. destruct (alloc c1 _) as [c2 tm]. cbn [fst snd vms].
+    now rewrite map_app. }
+  destruct (spawn p (fst m)) as [h c]. cbn [fst snd] in *. split; [|exact H2].
+  split; cbn [fst snd]; [exact H1|]. rewrite map_app, Hk, Hv. reflexivity.
+Qed.
+
+Lemma RM_begin lbl m s : RM m s ->
+  RM (fst (m_begin lbl m)) (fst (s_begin lbl s)) /\ snd (m_begin lbl m) = snd (s_begin lbl s).
+Proof.
+  intros [HR Hk]. unfold m_begin. destruct (call_begin_R lbl (fst m) s HR) as [H1 H2].
+  assert (Hv : map fst (vms (fst (call_begin lbl (fst m)))) =
+               if lbl then map fst (vms (fst m)) ++ [snd (call_begin lbl (fst m))] else map fst (vms (fst m))).
+  { unfold call_begin, thread_begin. destruct lbl; [|reflexivity].
+    destruct (alloc _ _) as [c1 rc]. destruct (alloc c1 _) as [c2 tm]. cbn [fst snd vms]. now rewrite map_app. }
+  destruct (call_begin lbl (fst m)) as [h t]. cbn [fst snd] in *. split; [|exact H2].
+  split; cbn [fst snd]; [exact H1|]. destruct lbl; [|now rewrite Hv]. rewrite map_app, Hk, Hv. reflexivity.
+Qed.
+
+Lemma RM_on_heap f g m s : (forall h, R h s -> R (f h) (g s) /\ map fst (vms (f h)) = map fst (vms h)) ->
+  RM m s -> RM (on_heap f m) (g s).
+Proof. intros Hf [HR Hk]. destruct (Hf _ HR) as [H1 H2]. split; cbn [fst snd on_heap]; [exact H1|congruence]. Qed.
+
+Lemma RM_spawned p c m s : RM m s -> RM (m_spawned p c m) (s_spawned p c s).
+Proof.
+  apply RM_on_heap. intros h HR. split; [now apply spawned_R|].
+  unfold spawned. destruct (tmps h) as [|[tm u] rest]; [reflexivity|].
+  destruct ((p <? u) && _); [destruct (copy_construct (hc h) tm)|]; reflexivity.
+Qed.
 
 (* ---- the scheduler does the same with both stores --------------------------------------------- *)
-Lemma run_simple_sim sc h s t steps f : R h s ->
-  fst (run_simple heap vm_end vm_kill_exec sc h t steps f) = fst (run_simple store s_end s_kill sc s t steps f) /\
-  R (snd (run_simple heap vm_end vm_kill_exec sc h t steps f)) (snd (run_simple store s_end s_kill sc s t steps f)).
+Lemma park_sim sc m s t w ts : RM m s ->
+  fst (park mheap m_suspend sc m t w ts) = fst (park store s_noop sc s t w ts) /\
+  RM (snd (park mheap m_suspend sc m t w ts)) (snd (park store s_noop sc s t w ts)).
+Proof. intro HR. unfold park. cbn [fst snd]. split; [reflexivity|]. now apply RM_suspend. Qed.
+
+Lemma run_simple_sim sc m s t steps f : RM m s ->
+  fst (m_run_simple sc m t steps f) = fst (s_run_simple sc s t steps f) /\
+  RM (snd (m_run_simple sc m t steps f)) (snd (s_run_simple sc s t steps f)).
 Proof.
   intro HR. unfold run_simple.
-  destruct steps as [|[d|d] rest]; cbn [fst snd]; auto.
-  destruct f as [[d|j|]| | |d|d| | |n|]; cbn [fst snd]; split; try reflexivity; try exact HR;
-    try (now apply vm_end_R); now apply vm_kill_exec_R.
+  destruct steps as [|[d|d|w hp] rest]; try (now apply park_sim).
+  destruct f as [[d|j|]| | |d|d| | |n|]; try (now apply park_sim); cbn [fst snd]; split; try reflexivity;
+    try (now apply RM_end); now apply RM_delete.
 Qed.
 
-Lemma run_st_sim subs : forall sc h s t pre post f, R h s ->
-  fst (m_run_st sc h t pre subs post f) = fst (s_run_st sc s t pre subs post f) /\
-  R (snd (m_run_st sc h t pre subs post f)) (snd (s_run_st sc s t pre subs post f)).
+Lemma run_st_sim subs : forall sc m s t pre post f, RM m s ->
+  fst (m_run_st sc m t pre subs post f) = fst (s_run_st sc s t pre subs post f) /\
+  RM (snd (m_run_st sc m t pre subs post f)) (snd (s_run_st sc s t pre subs post f)).
 Proof.
-  unfold m_run_st, s_run_st.
-  induction subs as [|l more IH]; intros sc h s t pre post f HR; cbn [run_st].
-  - destruct pre as [|[d|d] rest]; cbn [fst snd]; auto. now apply run_simple_sim.
-  - destruct pre as [|[d|d] rest]; cbn [fst snd]; auto.
-    destruct (spawn_R t h s HR) as [HR1 Ec].
-    destruct (spawn t h) as [h1 c]. destruct (s_spawn t s) as [s1 c']. cbn [fst snd] in *. subst c'.
-    destruct (IH sc h1 s1 c (lpre l) (lpost l) (resolve [] (lfin l)) HR1) as [E1 HR2].
-    destruct (run_st heap vm_end vm_kill_exec spawn spawned sc h1 c (lpre l) more (lpost l) (resolve [] (lfin l))) as [sa h2].
-    destruct (run_st store s_end s_kill s_spawn s_spawned sc s1 c (lpre l) more (lpost l) (resolve [] (lfin l))) as [sb s2].
+  induction subs as [|l more IH]; intros sc m s t pre post f HR; cbn [run_st].
+  - destruct pre as [|[d|d|w hp] rest]; try (now apply park_sim). now apply run_simple_sim.
+  - destruct pre as [|[d|d|w hp] rest]; try (now apply park_sim).
+    destruct (RM_spawn t m s HR) as [HR1 Ec].
+    destruct (m_spawn t m) as [m1 c]. destruct (s_spawn t s) as [s1 c']. cbn [fst snd] in *. subst c'.
+    destruct (IH sc m1 s1 c (lpre l) (lpost l) (resolve [] (lfin l)) HR1) as [E1 HR2].
+    destruct (m_run_st sc m1 c (lpre l) more (lpost l) (resolve [] (lfin l))) as [sa m2].
+    destruct (s_run_st sc s1 c (lpre l) more (lpost l) (resolve [] (lfin l))) as [sb s2].
     cbn [fst snd] in *. subst sb.
-    apply run_simple_sim. now apply spawned_R.
+    apply run_simple_sim. apply RM_spawned. now apply RM_tail.
 Qed.
 
-Lemma run_thr_sim sc h s th : R h s ->
-  fst (run_thr heap vm_end vm_kill vm_kill_exec spawn spawned sc h th) = fst (run_thr store s_end s_kill s_kill s_spawn s_spawned sc s th) /\
-  R (snd (run_thr heap vm_end vm_kill vm_kill_exec spawn spawned sc h th)) (snd (run_thr store s_end s_kill s_kill s_spawn s_spawned sc s th)).
+Lemma helper_act_sim sc m s t a : RM m s ->
+  fst (helper_act mheap m_delete m_suspend sc m t a) = fst (helper_act store s_kill s_noop sc s t a) /\
+  RM (snd (helper_act mheap m_delete m_suspend sc m t a)) (snd (helper_act store s_kill s_noop sc s t a)).
 Proof.
-  intro HR. destruct th as [t ts|t [|]]; cbn [run_thr].
-  - apply (run_st_sim (tsubs ts) sc h s t (tpre ts) (tpost ts) (tfin ts) HR).
-  - cbn [fst snd]. split; [reflexivity|]. now apply vm_kill_R.
-  - destruct (lookup t (paused sc)) as [ts|]; cbn [fst snd]; auto.
+  intro HR. unfold helper_act. destruct a as [e| |].
+  - destruct (parked_ts sc t); cbn [fst snd]; split; auto. now apply RM_suspend.
+  - destruct (parked_ts sc t); cbn [fst snd]; split; auto. now apply RM_suspend.
+  - cbn [fst snd]. split; [reflexivity|]. now apply RM_delete.
 Qed.
 
-Lemma resume_sim fuel : forall sc h s, R h s ->
-  fst (fst (m_resume fuel sc h)) = fst (fst (s_resume fuel sc s)) /\
-  snd (m_resume fuel sc h) = snd (s_resume fuel sc s) /\
-  R (snd (fst (m_resume fuel sc h))) (snd (fst (s_resume fuel sc s))).
+Lemma run_thr_sim sc m s th : RM m s ->
+  fst (m_run_thr sc m th) = fst (s_run_thr sc s th) /\ RM (snd (m_run_thr sc m th)) (snd (s_run_thr sc s th)).
 Proof.
-  unfold m_resume, s_resume.
-  induction fuel as [|fuel IH]; intros sc h s HR; cbn [resume].
+  intro HR. destruct th as [t ts|t [|]|t hp]; cbn [run_thr].
+  - destruct (run_st_sim (tsubs ts) sc (m_exec t m) (s_noop t s) t (tpre ts) (tpost ts) (tfin ts) (RM_exec t m s HR)) as [E1 E2].
+    destruct (m_run_st sc (m_exec t m) t (tpre ts) (tsubs ts) (tpost ts) (tfin ts)) as [sa m1].
+    destruct (s_run_st sc (s_noop t s) t (tpre ts) (tsubs ts) (tpost ts) (tfin ts)) as [sb s1].
+    cbn [fst snd] in *. subst sb. split; [reflexivity|]. now apply RM_tail.
+  - cbn [fst snd]. split; [reflexivity|]. now apply RM_delete.
+  - destruct (lookup t (paused sc)) as [ts|]; cbn [fst snd]; split; auto. now apply RM_suspend.
+  - destruct hp as [|[d a] rest]; cbn [fst snd]; [now split|].
+    destruct (helper_act_sim sc m s t a HR) as [E1 E2].
+    destruct (helper_act mheap m_delete m_suspend sc m t a) as [sa m1].
+    destruct (helper_act store s_kill s_noop sc s t a) as [sb s1]. cbn [fst snd] in *. subst sb. now split.
+Qed.
+
+Lemma resume_sim fuel : forall sc m s, RM m s ->
+  fst (fst (m_resume fuel sc m)) = fst (fst (s_resume fuel sc s)) /\
+  snd (m_resume fuel sc m) = snd (s_resume fuel sc s) /\
+  RM (snd (fst (m_resume fuel sc m))) (snd (fst (s_resume fuel sc s))).
+Proof.
+  induction fuel as [|fuel IH]; intros sc m s HR; cbn [resume].
   - destruct (pend sc) as [|x r]; cbn [fst snd]; auto.
     destruct (frame sc <? wdue (min_w x r)); cbn [fst snd]; auto.
   - destruct (pend sc) as [|x r]; cbn [fst snd]; auto.
     destruct (frame sc <? wdue (min_w x r)); cbn [fst snd]; auto.
     set (sc1 := mkSched (remove_w (wseq (min_w x r)) (x :: r)) (paused sc) (frame sc) (clock sc) (sseq sc)).
-    destruct (run_thr_sim sc1 h s (wthr (min_w x r)) HR) as [E1 E2].
-    destruct (run_thr heap vm_end vm_kill vm_kill_exec spawn spawned sc1 h (wthr (min_w x r))) as [sa ha].
-    destruct (run_thr store s_end s_kill s_kill s_spawn s_spawned sc1 s (wthr (min_w x r))) as [sb sb']. cbn [fst snd] in *. subst sb.
+    destruct (run_thr_sim sc1 m s (wthr (min_w x r)) HR) as [E1 E2].
+    destruct (m_run_thr sc1 m (wthr (min_w x r))) as [sa ha].
+    destruct (s_run_thr sc1 s (wthr (min_w x r))) as [sb sb']. cbn [fst snd] in *. subst sb.
     now apply IH.
 Qed.
 
 (* ---- one host operation ------------------------------------------------------------------------ *)
-Lemma mk_obs_eq c sc h s ok : R h s -> mk_obs heap heap_obs c sc h ok = mk_obs store s_obs c sc s ok.
-Proof. intro HR. unfold mk_obs. now rewrite (obs_eq h s HR). Qed.
+Lemma mk_obs_eq c sc m s ok : RM m s -> mk_obs mheap m_obs c sc m ok = mk_obs store s_obs c sc s ok.
+Proof. intros [HR _]. unfold mk_obs, m_obs. now rewrite (obs_eq (fst m) s HR). Qed.
 
-Theorem step_sim sc h s o : R h s ->
-  fst (fst (m_step (sc, h) o)) = fst (fst (s_step (sc, s) o)) /\
-  snd (m_step (sc, h) o) = snd (s_step (sc, s) o) /\
-  R (snd (fst (m_step (sc, h) o))) (snd (fst (s_step (sc, s) o))).
+Lemma vms_with_recs h c l n : vms (with_recs h c l n) = vms h.
+Proof. reflexivity. Qed.
+
+Lemma keys_kill_all l : forall h,
+  map fst (vms (fold_left (fun h t => vm_kill t h) l h)) = fold_left (fun a t => delN t a) l (map fst (vms h)).
+Proof.
+  induction l as [|t l IH]; intro h; cbn [fold_left]; [reflexivity|].
+  now rewrite IH, vms_after_kill, map_fst_del.
+Qed.
+
+Lemma reset_vms h : vms (heap_reset h) = [].
+Proof.
+  assert (E : map fst (vms (heap_reset h)) = []).
+  { unfold heap_reset. rewrite (fold_map_fst vm_kill), keys_kill_all. now apply delN_all. }
+  destruct (vms (heap_reset h)); [reflexivity|discriminate].
+Qed.
+
+Lemma RM_reset m s : RM m s -> RM (m_reset m) (s_reset s).
+Proof.
+  intros [HR _]. split; cbn [fst snd m_reset]; [now apply heap_reset_R|]. now rewrite reset_vms.
+Qed.
+
+Theorem step_sim sc m s o : RM m s ->
+  fst (fst (m_step (sc, m) o)) = fst (fst (s_step (sc, s) o)) /\
+  snd (m_step (sc, m) o) = snd (s_step (sc, s) o) /\
+  RM (snd (fst (m_step (sc, m) o))) (snd (fst (s_step (sc, s) o))).
 Proof.
   intro HR. unfold m_step, s_step. destruct o as [lbl np prog args|r|r|r|r|a b|a b|dt| |]; cbn [step_op].
   - (* the host call *)
-    destruct (call_begin_R lbl h s HR) as [HR1 Et].
-    destruct (call_begin lbl h) as [h1 t]. destruct (s_begin lbl s) as [s1 t']. cbn [fst snd] in *. subst t'.
+    destruct (RM_begin lbl m s HR) as [HR1 Et].
+    destruct (m_begin lbl m) as [m1 t]. destruct (s_begin lbl s) as [s1 t']. cbn [fst snd] in *. subst t'.
     destruct lbl.
     + set (l0 := match prog with l :: _ => l | [] => mkLevel [] [] FFall end).
-      destruct (run_st_sim (tl prog) sc h1 s1 t (lpre l0) (lpost l0) (resolve (bind np args) (lfin l0)) HR1) as [E1 E2].
-      unfold m_run_st, s_run_st in *.
-      destruct (run_st heap vm_end vm_kill_exec spawn spawned sc h1 t (lpre l0) (tl prog) (lpost l0) (resolve (bind np args) (lfin l0))) as [sa h2].
-      destruct (run_st store s_end s_kill s_spawn s_spawned sc s1 t (lpre l0) (tl prog) (lpost l0) (resolve (bind np args) (lfin l0))) as [sb s2].
+      destruct (run_st_sim (tl prog) sc m1 s1 t (lpre l0) (lpost l0) (resolve (bind np args) (lfin l0)) HR1) as [E1 E2].
+      destruct (m_run_st sc m1 t (lpre l0) (tl prog) (lpost l0) (resolve (bind np args) (lfin l0))) as [sa m2].
+      destruct (s_run_st sc s1 t (lpre l0) (tl prog) (lpost l0) (resolve (bind np args) (lfin l0))) as [sb s2].
       cbn [fst snd] in *. subst sb.
-      destruct (resume_sim (weight sa) sa h2 s2 E2) as (E3 & E4 & E5). unfold m_resume, s_resume in *.
-      destruct (resume heap vm_end vm_kill vm_kill_exec spawn spawned (weight sa) sa h2) as [[sc3 h3] ok3].
-      destruct (resume store s_end s_kill s_kill s_spawn s_spawned (weight sa) sa s2) as [[sc3' s3] ok3'].
+      destruct (resume_sim (weight sa) sa (m_tail t m2) (s_noop t s2) (RM_tail t m2 s2 E2)) as (E3 & E4 & E5).
+      destruct (m_resume (weight sa) sa (m_tail t m2)) as [[sc3 m3] ok3].
+      destruct (s_resume (weight sa) sa (s_noop t s2)) as [[sc3' s3] ok3'].
       cbn [fst snd] in *. subst sc3' ok3'.
-      pose proof (call_finish_R t args h3 s3 E5) as HR4.
+      assert (HR4 : RM (m_finish true t args m3) (s_finish true t args s3)).
+      { apply RM_on_heap; [|exact E5]. intros h Hh. split; [now apply call_finish_R|].
+        unfold call_finish. destruct (tmps h) as [|[tm u] rest]; [reflexivity|].
+        destruct (get (cells (hc h)) tm) as [[[|k i]|p]|]; try reflexivity; destruct (move_construct (hc h) tm); reflexivity. }
       split; [reflexivity|]. split; [|exact HR4].
-      rewrite (alive_eq t _ _ HR4). now apply mk_obs_eq.
-    + pose proof (call_finish_nolabel_R t args h1 s1 HR1) as HR2.
+      unfold m_alive. rewrite (alive_eq t _ _ (proj1 HR4)). now apply mk_obs_eq.
+    + assert (HR2 : RM (m_finish false t args m1) (s_finish false t args s1)).
+      { apply RM_on_heap; [|exact HR1]. intros h Hh. split; [now apply call_finish_nolabel_R|reflexivity]. }
       split; [reflexivity|]. split; [now apply mk_obs_eq|exact HR2].
-  - pose proof (rec_copy_R r h s HR) as H. split; [reflexivity|]. split; [now apply mk_obs_eq|exact H].
-  - pose proof (rec_reserve_R r h s HR) as H. split; [reflexivity|]. split; [now apply mk_obs_eq|exact H].
-  - split; [reflexivity|]. split; [now apply mk_obs_eq|exact HR].
-  - pose proof (rec_destroy_R r h s HR) as H. split; [reflexivity|]. split; [now apply mk_obs_eq|exact H].
-  - pose proof (rec_assign_R a b h s HR) as H. split; [reflexivity|]. split; [now apply mk_obs_eq|exact H].
-  - pose proof (rec_massign_R a b h s HR) as H. split; [reflexivity|]. split; [now apply mk_obs_eq|exact H].
+  - assert (H : RM (on_heap (rec_copy r) m) (s_copy r s)).
+    { apply RM_on_heap; [|exact HR]. intros h Hh. split; [now apply rec_copy_R|].
+      unfold rec_copy. destruct (lookup r (recs h)) as [[a [c|]]|]; try reflexivity;
+      destruct (copy_construct (hc h) c); reflexivity. }
+    split; [reflexivity|]. split; [now apply mk_obs_eq|exact H].
+  - assert (H : RM (on_heap (rec_reserve r) m) (s_same r s)).
+    { apply RM_on_heap; [|exact HR]. intros h Hh. split; [now apply rec_reserve_R|].
+      unfold rec_reserve. destruct (lookup r (recs h)) as [[a [c|]]|]; try reflexivity;
+      destruct (copy_construct (hc h) c); reflexivity. }
+    split; [reflexivity|]. split; [now apply mk_obs_eq|exact H].
+  - split; [reflexivity|]. split; [now apply mk_obs_eq|]. destruct HR. now split.
+  - assert (H : RM (on_heap (rec_destroy r) m) (s_destroy r s)).
+    { apply RM_on_heap; [|exact HR]. intros h Hh. split; [now apply rec_destroy_R|].
+      unfold rec_destroy. destruct (lookup r (recs h)) as [[a0 [c|]]|]; reflexivity. }
+    split; [reflexivity|]. split; [now apply mk_obs_eq|exact H].
+  - assert (H : RM (on_heap (rec_assign a b) m) (s_assign a b s)).
+    { apply RM_on_heap; [|exact HR]. intros h Hh. split; [now apply rec_assign_R|].
+      unfold rec_assign. destruct (a =? b); [reflexivity|]. destruct (slot_of a h), (slot_of b h); reflexivity. }
+    split; [reflexivity|]. split; [now apply mk_obs_eq|exact H].
+  - assert (H : RM (on_heap (rec_massign a b) m) (s_massign a b s)).
+    { apply RM_on_heap; [|exact HR]. intros h Hh. split; [now apply rec_massign_R|].
+      unfold rec_massign. destruct (a =? b); [reflexivity|]. destruct (slot_of a h), (slot_of b h); reflexivity. }
+    split; [reflexivity|]. split; [now apply mk_obs_eq|exact H].
   - split; [reflexivity|]. split; [now apply mk_obs_eq|exact HR].
   - set (sc1 := mkSched (pend sc) (paused sc) (clock sc) (clock sc) (sseq sc)).
-    destruct (resume_sim (weight sc1) sc1 h s HR) as (E3 & E4 & E5). unfold m_resume, s_resume in *.
-    destruct (resume heap vm_end vm_kill vm_kill_exec spawn spawned (weight sc1) sc1 h) as [[sc3 h3] ok3].
-    destruct (resume store s_end s_kill s_kill s_spawn s_spawned (weight sc1) sc1 s) as [[sc3' s3] ok3'].
+    destruct (resume_sim (weight sc1) sc1 m s HR) as (E3 & E4 & E5).
+    destruct (m_resume (weight sc1) sc1 m) as [[sc3 m3] ok3].
+    destruct (s_resume (weight sc1) sc1 s) as [[sc3' s3] ok3'].
     cbn [fst snd] in *. subst sc3' ok3'.
     split; [reflexivity|]. split; [now apply mk_obs_eq|exact E5].
-  - destruct (heap_reset_R h s HR) as [H _]. split; [reflexivity|]. split; [now apply mk_obs_eq|exact H].
+  - pose proof (RM_reset m s HR) as H. split; [reflexivity|]. split; [now apply mk_obs_eq|exact H].
 Qed.
 
-Lemma from_sim ops : forall sc h s, R h s -> m_from (sc, h) ops = s_from (sc, s) ops.
+Lemma from_sim ops : forall sc m s, RM m s -> m_from (sc, m) ops = s_from (sc, s) ops.
 Proof.
-  induction ops as [|o ops IH]; intros sc h s HR; [reflexivity|].
-  unfold m_from, s_from. cbn [run_from]. fold m_from s_from. fold (m_step (sc, h) o) (s_step (sc, s) o).
-  destruct (step_sim sc h s o HR) as (E1 & E2 & E3).
-  destruct (m_step (sc, h) o) as [[sc1 h1] ob1]. destruct (s_step (sc, s) o) as [[sc2 s2] ob2].
+  induction ops as [|o ops IH]; intros sc m s HR; [reflexivity|].
+  unfold m_from, s_from. cbn [run_from]. fold m_from s_from. fold (m_step (sc, m) o) (s_step (sc, s) o).
+  destruct (step_sim sc m s o HR) as (E1 & E2 & E3).
+  destruct (m_step (sc, m) o) as [[sc1 h1] ob1]. destruct (s_step (sc, s) o) as [[sc2 s2] ob2].
   cbn [fst snd] in *. subst sc2 ob2. f_equal. now apply IH.
 Qed.
 
+Lemma RM_init : RM m_init store_init.
+Proof. split; [exact R_init|reflexivity]. Qed.
+
 (* the main theorem *)
 Theorem run_refines_spec : forall ops, run ops = spec_run ops.
-Proof. intro ops. unfold run, spec_run, grun. apply (from_sim ops sched_init heap_init store_init R_init). Qed.
+Proof. intro ops. unfold run, spec_run, grun. apply (from_sim ops sched_init m_init store_init RM_init). Qed.
